@@ -129,7 +129,17 @@ def to_request(h: SHistory, real_out):
     ops = []
     for op, (status, obs) in zip(h.ops, real_out):
         if op[0] == "updbad":
-            break      # (same: a refit the classifier refuses is not modelled – compare the prefix)
+            # whether scikit-learn refuses the refit data is a parameter of the machine (taken from the real run): refused →
+            # `updateRefused` (selection committed, then ValueError: finding F16), accepted → an ordinary update with data
+            _, n, thr, method, how = op
+            mag = obs["mag"] if obs.get("fitted") else []
+            if thr is not None and not isinstance(thr, (int, float)):
+                return None
+            if status == "ok":
+                ops.append(f"upd {enc_optcount(n)} {enc_optrat(thr)} 1 {C.enc_rats(mag)}")
+            else:
+                ops.append(f"updr {enc_optcount(n)} {enc_optrat(thr)} {C.enc_rats(mag)}")
+            continue
         if op[0] in ("fit", "updm") and status != "ok":
             break      # failures inside the basis / classifier / solver stage of fit are not modelled: compare the prefix
         if not obs.get("fitted"):
